@@ -2,7 +2,8 @@
 
 One operation of the real FigureOfMerit / FigureOfMeritLE code (evaluate, initialize, set_raw, set_model,
 get_differentials) is run from an ARBITRARY object state that satisfies the invariant
-    I:  equations in {real, model};  collect <=> (equations is real and model mode supported);
+    I:  equations in {real, model};  collect => (equations is real and model mode supported)  [raw mode collects iff supported;
+        model mode never collects - also when the model IS the system's own equations object];
         both collections exist iff model mode is supported and have equal length
 with arbitrary garbage in the internal results array; run_ode / j_from_ode / diff_from_ode are uninterpreted
 functions of (training case, equations, x).  The post-state must satisfy I again and the operation's documented
@@ -106,8 +107,8 @@ class Case(SymArray):
     pass
 
 
-def make_state(Obj, eng, ncases, supports, eq, coll_len, garbage=True):
-    """an arbitrary object state satisfying the invariant"""
+def make_state(Obj, eng, ncases, supports, eq, coll_len, garbage=True, collect=None):
+    """an arbitrary object state satisfying the invariant; collect=None: raw mode collects, model mode does not"""
     o = Obj.__new__(Obj)
     tr = []
     for i in range(ncases):
@@ -134,7 +135,7 @@ def make_state(Obj, eng, ncases, supports, eq, coll_len, garbage=True):
     setattr(o, p + "controller_dim", 1)
     setattr(o, p + "collection_sc", [("sc", "old", k) for k in range(coll_len)] if supports else None)
     setattr(o, p + "collection_df", [("df", "old", k) for k in range(coll_len)] if supports else None)
-    setattr(o, p + "collect", bool(supports and eq is REAL_EQ))
+    setattr(o, p + "collect", bool(supports and eq is REAL_EQ) if collect is None else bool(collect))
     setattr(o, p + "state_dims_in_j", 2)
     setattr(o, p + "gamma", 0.1)
     return o
@@ -153,7 +154,7 @@ def invariant(o, supports):
     else:
         if sc is not None or df is not None:
             probs.append("collections exist although model mode is unsupported")
-    if getattr(o, p + "collect") != bool(supports and eq is REAL_EQ):
+    if getattr(o, p + "collect") and not (supports and eq is REAL_EQ):
         probs.append(f"collect flag {getattr(o, p + 'collect')} with equations {eq} supports={supports}")
     return probs
 
@@ -189,14 +190,17 @@ def job_ops(variant, ncases):
         elif not ok:
             problems.append(f"exploration not conclusive {eng.stats()}")
     p = "_FigureOfMerit__"
-    for supports, eq, L in itertools.product((True, False), (REAL_EQ, MODEL_EQ), (0, 1, 2)):
-        if not supports and (eq is MODEL_EQ or L > 0):
+    # abstract states: raw mode (real equations; collecting iff model mode is supported), model mode with a separate model, and model
+    # mode with a model that IS the system's own equations object (real equations, collection off)
+    modes = [(True, REAL_EQ, True), (True, REAL_EQ, False), (True, MODEL_EQ, False), (False, REAL_EQ, False)]
+    for (supports, eq, col), L in itertools.product(modes, (0, 1, 2)):
+        if not supports and L > 0:
             continue
         stats["states"] += 1
-        tag = f"[supports={supports} eq={'real' if eq is REAL_EQ else 'model'} collected={L}]"
+        tag = f"[supports={supports} eq={'real' if eq is REAL_EQ else 'model'} collecting={col} collected={L}]"
 
         def ev(eng):
-            o = make_state(Obj, eng, ncases, supports, eq, L)
+            o = make_state(Obj, eng, ncases, supports, eq, L, collect=col)
             val = o.evaluate("X")
             spec, oks = spec_value(J, variant, ncases, 0 if eq is REAL_EQ else 1)
             eng.oblige(lift(val) == spec, f"evaluate returns spec(x, equations) {tag}", now=True)
@@ -213,10 +217,10 @@ def job_ops(variant, ncases):
                     if m is not None and z3.is_false(m.eval(c, model_completion=True)):
                         done = i
                         break
-                exp = done if eq is REAL_EQ else 0
+                exp = done if col else 0
                 if grown != exp:
                     eng.oblige(False, f"training data grew by {grown}, expected {exp} {tag}", now=True)
-                if eq is REAL_EQ and any(e[2] is not REAL_EQ for e in sc[L:]):
+                if col and any(e[2] is not REAL_EQ for e in sc[L:]):
                     eng.oblige(False, f"collected data not from the real system {tag}", now=True)
             if getattr(o, p + "equations") is not eq:
                 eng.oblige(False, f"evaluate changed the equations {tag}", now=True)
@@ -224,48 +228,55 @@ def job_ops(variant, ncases):
         run(ev)
 
         def ini(eng):
-            o = make_state(Obj, eng, ncases, supports, eq, L)
+            o = make_state(Obj, eng, ncases, supports, eq, L, collect=col)
             o.initialize()
             for q in invariant(o, supports):
                 eng.oblige(False, f"initialize breaks the invariant: {q} {tag}", now=True)
             if getattr(o, p + "equations") is not REAL_EQ:
                 eng.oblige(False, f"initialize does not restore the real equations {tag}", now=True)
+            if bool(getattr(o, p + "collect")) != bool(supports):
+                eng.oblige(False, f"initialize does not switch data collection back on {tag}", now=True)
             if supports and (len(getattr(o, p + "collection_sc")) != 0 or len(getattr(o, p + "collection_df")) != 0):
                 eng.oblige(False, f"initialize does not clear the collected data {tag}", now=True)
             return "initialize"
         run(ini)
 
         def sraw(eng):
-            o = make_state(Obj, eng, ncases, supports, eq, L)
+            o = make_state(Obj, eng, ncases, supports, eq, L, collect=col)
             o.set_raw()
             for q in invariant(o, supports):
                 eng.oblige(False, f"set_raw breaks the invariant: {q} {tag}", now=True)
             if getattr(o, p + "equations") is not REAL_EQ:
                 eng.oblige(False, f"set_raw does not restore the real equations {tag}", now=True)
+            if bool(getattr(o, p + "collect")) != bool(supports):
+                eng.oblige(False, f"set_raw does not switch data collection back on {tag}", now=True)
             if supports and len(getattr(o, p + "collection_sc")) != L:
                 eng.oblige(False, f"set_raw changed the collected data {tag}", now=True)
             return "set_raw"
         run(sraw)
 
-        def smod(eng):
-            o = make_state(Obj, eng, ncases, supports, eq, L)
-            try:
-                o.set_model(MODEL_EQ)
-            except ValueError:
-                if supports:
-                    eng.oblige(False, f"set_model raises although model mode is supported {tag}", now=True)
-                return "set_model-rejected"
-            if not supports:
-                eng.oblige(False, f"set_model accepted without model mode support {tag}", now=True)
-            for q in invariant(o, supports):
-                eng.oblige(False, f"set_model breaks the invariant: {q} {tag}", now=True)
-            if getattr(o, p + "equations") is not MODEL_EQ or len(getattr(o, p + "collection_sc")) != L:
-                eng.oblige(False, f"set_model: wrong equations or changed data {tag}", now=True)
-            return "set_model"
-        run(smod)
+        for model in (MODEL_EQ, REAL_EQ):
+            def smod(eng, model=model):
+                o = make_state(Obj, eng, ncases, supports, eq, L, collect=col)
+                try:
+                    o.set_model(model)
+                except ValueError:
+                    if supports:
+                        eng.oblige(False, f"set_model raises although model mode is supported {tag}", now=True)
+                    return "set_model-rejected"
+                if not supports:
+                    eng.oblige(False, f"set_model accepted without model mode support {tag}", now=True)
+                for q in invariant(o, supports):
+                    eng.oblige(False, f"set_model breaks the invariant: {q} {tag}", now=True)
+                if getattr(o, p + "equations") is not model or len(getattr(o, p + "collection_sc")) != L:
+                    eng.oblige(False, f"set_model: wrong equations or changed data {tag}", now=True)
+                if getattr(o, p + "collect"):
+                    eng.oblige(False, f"set_model leaves data collection on {tag}", now=True)
+                return "set_model"
+            run(smod)
 
         def gd(eng):
-            o = make_state(Obj, eng, ncases, supports, eq, L)
+            o = make_state(Obj, eng, ncases, supports, eq, L, collect=col)
             try:
                 a, b = o.get_differentials()
             except ValueError:
@@ -354,6 +365,22 @@ def battery():
         f2 = fresh(); f2.evaluate(xs[0]); sc4, df4 = f2.get_differentials()
         if len(sc3) != len(df3) or len(sc3) != len(sc4):
             probs.append(f"{cls.__name__}: after initialize() the recorded data is sc={len(sc3)} df={len(df3)} rows, a fresh objective records {len(sc4)}")
+        # model mode with a model that is the system's own equations object, then back: data collection must be on again
+        for back in ("set_raw", "initialize"):
+            o = fresh()
+            o.evaluate(xs[0])
+            o.set_model(sysm.equations)
+            o.evaluate(xs[1])
+            getattr(o, back)()
+            o.evaluate(xs[3])
+            f3 = fresh(); f3.evaluate(xs[0]) if back == "set_raw" else None; f3.evaluate(xs[3])
+            try:
+                got_rows = len(o.get_differentials()[0])
+            except (ValueError, IndexError) as ex:
+                got_rows = f"{type(ex).__name__}"
+            exp_rows = len(f3.get_differentials()[0])
+            if got_rows != exp_rows:
+                probs.append(f"{cls.__name__}: after set_model(system.equations) and {back}() the objective recorded {got_rows} rows, a fresh objective with the same raw evaluations records {exp_rows}")
         o2 = cls(inst, False)
         try:
             o2.set_model(model_eq)
